@@ -97,6 +97,7 @@ structure World where
   nodes : List NodeS := []
   graphs : List GraphS := []
   tensors : List (Option String) := []
+  locked : List Bool := []
   deriving DecidableEq, Repr
 
 instance : Inhabited World := ⟨{}⟩
@@ -471,6 +472,12 @@ def registerNode (w : World) (g n : Nat) : World :=
 
 def falsy (s : Option String) : Bool := s = none || s = some ""
 
+/-- the value's const tensor refuses to be renamed -/
+def constLocked (w : World) (v : Nat) : Bool :=
+  match (w.val v).const with
+  | some t => lget w.locked t
+  | none => false
+
 def lookupInit (l : List (String × Nat)) (k : String) : Option Nat := (l.find? (fun p => p.1 = k)).map (·.2)
 
 /-- dict assignment: an existing key keeps its position -/
@@ -570,17 +577,18 @@ def initMut (w : World) (g : Nat) : InitMut → World × Outcome
 
 /-- `Value.name = s` (`_core.py:3200-3247`, with the empty-name check of the fix): nothing to do for
 the same name; an initializer may only take a non-empty name that is not a key of its graph, and is
-re-keyed (moved to the end of the mapping) -/
+re-keyed (moved to the end of the mapping); a const tensor that refuses the new name makes the call
+raise before anything changed -/
 def setName (w : World) (v : Nat) (s : Option String) : World × Outcome :=
   let r := w.val v
   let reKey : Option (String × Nat × String) :=
     match s, r.graph, r.name with
     | some new, some g, some old => some (new, g, old)
     | _, _, _ => none
-  guardOp (decide (r.name ≠ s) && r.isInit &&
+  guardOp (decide (r.name ≠ s) && (constLocked w v || (r.isInit &&
       (match reKey with
         | some (new, g, _) => decide (new = "") || (lookupInit (w.gr g).inits new).isSome
-        | none => true)) "ValueError" w
+        | none => true)))) "ValueError|AttributeError" w
     (if r.name = s then w
      else if r.isInit then
        match reKey with
@@ -716,16 +724,20 @@ def rauw (w : World) (v r : Nat) (rgo : Bool) : World × Outcome :=
           (List.replicate (w.gr g).outputs.length r)
       | none => w) v r)
 
-/-- a const tensor for a value (`Value.const_value = ir.tensor(...)`); tensors are only named -/
-def setConst (w : World) (v : Nat) : World × Outcome :=
+/-- a const tensor for a value (`Value.const_value = tensor`); tensors are only named.  A `locked`
+tensor is one whose `name` cannot be assigned (a `TensorProtocol` implementation with a read-only
+name): `Value.name = …` then raises while renaming the backing tensor (`_core.py:3252-3254`), before
+anything was changed -/
+def setConst (w : World) (v : Nat) (locked : Bool) : World × Outcome :=
   let t := w.tensors.length
-  (({ w with tensors := lset w.tensors t none }).setVal v { w.val v with const := some t }, .ok)
+  (({ w with tensors := lset w.tensors t none, locked := lset w.locked t locked }).setVal v
+    { w.val v with const := some t }, .ok)
 
 /-! ## The operation alphabet -/
 
 inductive Op where
   | newValue (name : Option String)
-  | setConst (v : Nat)
+  | setConst (v : Nat) (locked : Bool)
   | newNode (opType : String) (name : Option String) (inputs : List (Option Nat))
       (numOutputs : Option Int) (outputs : Option (List Nat)) (graph : Option Nat)
   | newGraph (inputs outputs nodes inits : List Nat)
@@ -747,7 +759,7 @@ inductive Op where
 
 def step (w : World) : Op → World × Outcome
   | .newValue name => newValue w name
-  | .setConst v => setConst w v
+  | .setConst v locked => setConst w v locked
   | .newNode opType name inputs numOutputs outputs graph => newNode w opType name inputs numOutputs outputs graph
   | .newGraph inputs outputs nodes inits => newGraph w inputs outputs nodes inits
   | .replaceInput n idx v => replaceInput w n idx v
@@ -782,6 +794,21 @@ def rauwSeq (w : World) (rgo : Bool) : List (Nat × Nat) → World × Outcome
 
 def rauwMany (w : World) (vs rs : List Nat) (rgo : Bool) : World × Outcome :=
   if vs.length ≠ rs.length then (w, .raised "ValueError") else rauwSeq w rgo (vs.zip rs)
+
+/-- the up-front check of proposed fix D82 (`proposed_fixes/D82.diff`): a pair whose value is a graph
+output is rejected when graph outputs are not to be replaced or the owning graph does not accept the
+replacement — evaluated on the state before the call -/
+def rauwManyBad (w : World) (rgo : Bool) (ps : List (Nat × Nat)) : Bool :=
+  ps.any (fun p => (w.val p.1).isOut && (match (w.val p.1).graph with
+    | some g => !rgo || !checkIO w g .out p.2
+    | none => true))
+
+/-- `convenience.replace_all_uses_with` with the D82 check in front.  NOT what `stepConv` uses while
+the code is unfixed; to follow the fix, make `stepConv (.rauwMany …)` call this function. -/
+def rauwManyChecked (w : World) (vs rs : List Nat) (rgo : Bool) : World × Outcome :=
+  if vs.length ≠ rs.length then (w, .raised "ValueError")
+  else if rauwManyBad w rgo (vs.zip rs) then (w, .raised "ValueError")
+  else rauwSeq w rgo (vs.zip rs)
 
 /-- first target per value; `none` when one value is given two different targets
 (`_convenience/__init__.py:391-406`) -/
@@ -818,7 +845,8 @@ def renameValues (w : World) (vs : List Nat) (names : List String) : World × Ou
   | none => (w, .raised "ValueError")
   | some pairs =>
     let ips := pairs.filter (fun p => (w.val p.1).isInit)
-    guardOp (renameBad w ips) "ValueError" w <|
+    guardOp (renameBad w ips ||
+        pairs.any (fun p => constLocked w p.1 && decide ((w.val p.1).name ≠ some p.2))) "ValueError|AttributeError" w <|
       let w1 := ips.foldl (fun w p => match (w.val p.1).graph, (w.val p.1).name with
         | some g, some old => initDel w g old
         | _, _ => w) w
